@@ -20,6 +20,8 @@ func main() {
 	switch driver {
 	case "route":
 		runRoute(*in, *out, *seed)
+	case "nego":
+		runNego(*in, *out, *seed)
 	default:
 		fmt.Fprintf(os.Stderr, "unknown driver %q\n", driver)
 		os.Exit(2)
